@@ -461,8 +461,24 @@ class Session:
 
     def call(self, f, *args, **kwargs):
         if isinstance(f, str):
+            name = f.rsplit(".", 1)[-1]
             f = self.find(f)
+            if name.startswith("_") and not name.startswith("__"):
+                return self._private_call(name, lambda: self.I.call(f, list(args), kwargs))
         return self.I.call(f, list(args), kwargs)
+
+    def _private_call(self, name, thunk):
+        """see method(): a private helper whose signature no longer binds the contract's call = UNDECIDED"""
+        from .interp import RaisedEx as _RaisedEx
+
+        try:
+            return thunk()
+        except _RaisedEx as e:
+            m = str(getattr(e, "msg", ""))
+            if e.kind == "TypeError" and m.startswith(f"{name}() ") and any(w in m for w in ("positional argument", "unexpected keyword", "missing required", "missing keyword-only")):
+                self.ctx.oblige(f"{self.prefix}/inv-form:signature-of-private-helper-{name}-changed", z3.BoolVal(False), (), "inv-form", None)
+                raise PathEnd("private helper signature changed")
+            raise
 
     def method(self, obj, name, *args, **kwargs):
         if name.startswith("_") and not name.startswith("__"):
